@@ -9,6 +9,7 @@ import (
 	"pgregory.net/rapid"
 
 	"verif/h/corpus"
+	"verif/h/gen"
 	"verif/h/hx"
 	"verif/h/llvmx"
 	"verif/h/lx"
@@ -126,3 +127,33 @@ func TestReplay(t *testing.T) {
 	}
 	judge(t, "Replay", "replay", string(buf), false)
 }
+
+func TestGenerated(t *testing.T) {
+	const test = "Generated"
+	hx.Rule(test, "modules from the harness' typed generator rendered with maximal spelling noise (explicit and implicit numbering, redundantly quoted names, \\XX escapes for printable bytes, comments, varied indentation, hex integers, full callee types, sparse and permuted metadata IDs, shuffled top-level order): same oracle; every case of a validated sub-batch (every 10th) is passed through llvm-as so that the acceptance rate of the generator is measured; non-trivial = the printed output differs from the input text")
+	hx.Check(t, test, hx.N(400, 12000), func(rt *rapid.T) {
+		cfg := gen.DefaultCfg()
+		cfg.Off = map[string]bool{"retattr-align": true, "freeze-metadata": true} // inputs the parser cannot read are outside C02's domain
+		m, feats := gen.Module(rt, cfg)
+		gen.SparseMetadataIDs(rt, m)
+		x := m.TextNoisy(gen.DrawNoise(rt))
+		hx.Eval(1)
+		validated++
+		if validated%10 == 0 {
+			if llvmx.Accept(x).OK {
+				hx.Hist("validated_subbatch/llvm_accepts")
+			} else {
+				hx.Hist("validated_subbatch/llvm_rejects")
+			}
+		}
+		if judge(rt, test, "own-generator", x, false) {
+			hx.NonTrivial(x)
+			for k, v := range feats {
+				hx.HistN(k, v)
+			}
+		}
+		hx.SampleCase(test, x)
+	})
+}
+
+var validated int
